@@ -167,7 +167,7 @@ def classify(case, clause, tid, mlines):
                 if p[3] == 'completed' and int(p[1]) == tid:
                     ds = [x for x in st if st[x] not in TERM and tr.parent(x) == tid]
                     if ds:
-                        return f"304{p[5] if len(p) > 5 else '@?'}"
+                        return f"304|{p[5] if len(p) > 5 else '@?'}"
         return "304@?"
     if clause == 305:
         last = '@?'
@@ -175,7 +175,7 @@ def classify(case, clause, tid, mlines):
             p = l.split(' ')
             if p[0] == 'T' and p[1] == '0' and p[3] in TERM:
                 last = p[5] if len(p) > 5 else '@?'
-        return f"305{last}"
+        return f"305|{last}" if last != '@?' else "305@?"
     if clause == 802:
         ms = [i for i, l in enumerate(tr.lines) if l.startswith(f'M {tid} ') and ' created ' not in l]
         if len(ms) >= 2 and not any(l.startswith(f'T {tid} ') for l in tr.lines[ms[0]:ms[1]]):
@@ -213,23 +213,18 @@ def classify(case, clause, tid, mlines):
                 px = tr.parent(x)
                 if any(below(h, x) or (px is not None and tr.parent(h) == px) for h in tr.hooks if h in st):
                     return "101:hook_act"
-                def back_cancel(site):
-                    # write sites of the back / cancel actions (task.rs update Back / Cancel arms, context.rs back_task /
-                    # undo_task / redo_task): one family, whatever the kind of the task that is left open
-                    return site[1:].isdigit() and 33 <= int(site[1:]) <= 38
+                # the classes are structural (what the model, which the implementation matches line by line, is stuck in);
+                # the write site that closed the last child goes into the detail text, not into the class: an
+                # implementation that is stuck where the model is not never gets here (the model trace has no such point)
                 if kids:
-                    # an errored child under a task that is still open is what keeps it open (Act::review /
-                    # Step::review stop at the first errored child); otherwise the child that moved last
                     errs = [k for k in kids if st[k] == 'error']
                     y = max(errs or kids, key=lambda k: last.get(k, (-1,))[0])
                     site = last.get(y, (0, '', '@?'))[2]
-                    if not errs and back_cancel(site):
-                        return "101:back_cancel@33-38"
-                    return f"101:{tr.ti[x]['kind']}:{st[x]}:child_{st[y]}{site}"
+                    if errs:
+                        return f"101:errored_child|{tr.ti[x]['kind']}:{st[x]}:child_error{site}"
+                    return f"101:children_done|{tr.ti[x]['kind']}:{st[x]}:child_{st[y]}{site}"
                 site = last.get(x, (0, '', '@?'))[2]
-                if back_cancel(site):
-                    return "101:back_cancel@33-38"
-                return f"101:{tr.ti[x]['kind']}:{st[x]}:self{site}"
+                return f"101:{tr.ti[x]['kind']}:{st[x]}:no_children|self{site}"
         return "101:?"
     return str(clause)
 
@@ -271,8 +266,9 @@ def run(prop, tier, seed):
         for clause, tid in vs:
             if not (lo <= clause < hi or clause >= 900):
                 continue
-            cls = classify(cases[cid], clause, tid, m.get(cid, []))
-            violations.append({'class': cls, 'detail': f"case {cid}: {CLAUSE_TEXT.get(clause, clause)} (task #{tid}) [{cls}]",
+            full = classify(cases[cid], clause, tid, m.get(cid, []))
+            cls = full.split('|')[0]
+            violations.append({'class': cls, 'detail': f"case {cid}: {CLAUSE_TEXT.get(clause, clause)} (task #{tid}) [{full}]",
                                'case': {'kind': 'engine', 'case': cases[cid], 'clause': clause, 'task': tid}})
     if prop == 'C11':
         # every live-vs-row difference the implementation reports at a quiescent point is a violation
